@@ -708,6 +708,13 @@ func (s *DB) getHistoricRootsAndNodes(
 	parentToChildren := getDependents(rootCacheByName)
 	for parent, children := range parentToChildren {
 		tooNew := false
+		// A successor can carry an earlier time than the version it supersedes
+		// (the merge version of an open is dated before the listing it merges;
+		// writers' clocks differ), so the version's own age counts as well.
+		if parentRoot, ok := rootCacheByName[parent]; ok &&
+			(parentRoot.Created == nil || !parentRoot.Created.Before(olderThan)) {
+			tooNew = true
+		}
 		for _, childRoot := range children {
 			if childRoot.Created == nil || childRoot.Created.After(olderThan) {
 				tooNew = true
